@@ -19,6 +19,8 @@ NONLREC = {
     'join_of_rule': [('start', S(JOIN(T(','), C('r'), True), EOF_)), ('r', A(S(T('a'), CUT, OPT(T('b'))), T('b')))],
     # rule names that differ only by leading/trailing underscores are different rules with different memo entries
     'underscore_names': [('start', A(S(C('x_'), T('b')), S(C('x'), T('c')), S(C('_x'), C('x'), T('d')))), ('x', A(T('a'), P('[xy]'))), ('x_', S(T('a'), OPT(T('a')))), ('_x', P('a?'))],
+    # two different failures at the same furthest position, one of them inside a rule that is retried from the memo (known finding F40: the error CLASS)
+    'error_tie': [('start', A(S(C('r'), T('x')), C('q'), S(C('r'), T('y')))), ('r', A(S(T('a'), C('bb')), T('c'))), ('bb', T('b')), ('q', S(T('a'), C('pp'))), ('pp', P('x'))],
     'failing_rule_memo': [('start', A(S(C('r'), T('x')), S(C('q'), T('y')), P('.+'))), ('r', S(T('a'), T('b'))), ('q', A(C('r'), T('a')))],
 }
 # a left-recursive component with two cycles through one leader: the non-leader members are retried at the same position while the
@@ -74,6 +76,8 @@ def make_variant(spec):
 
 
 def plan(tier, seed):
+    from ..known import tolerated
+    verr = 'F40-tolerated' if 'F40' in tolerated('C04') else 'strict'
     obs = []
     lrec = ['direct', 'mutual', 'two_ops', 'cut_in_leftrec'] if tier == 'quick' else list(LREC)
     maxn = 3 if tier == 'quick' else 4
@@ -83,8 +87,8 @@ def plan(tier, seed):
             if is_lrec and vn == 'nomemo':
                 continue
             for n in range(0, maxn + 1):
-                spec = {'grammar': nm, 'rules': rs, 'n': n, 'settings': SETTINGS, 'ref': False, 'variants': [vs], 'warm': WARM,
-                        'trace': vn == 'memo1'}
+                spec = {'grammar': nm, 'rules': rs, 'n': n, 'settings': SETTINGS, 'ref': False, 'variants': [vs], 'warm': WARM + ['a!', 'a !', 'a!!'],
+                        'trace': vn == 'memo1', 'variant_errors': verr if vn != 'parseinfo' else 'strict'}
                 obs.append(Ob(name=f'{nm}_{vn}_L{n}', factory='vt.props.c04:make_variant', spec=spec,
                               params=[(f'c{i}', 0, UNI) for i in range(n)], budget=BUDGET[n], group=f'A:{vn}',
                               require_tags=('ok',) if n == 3 and nm not in ('mutual', 'cut_in_leftrec') else ()))
